@@ -114,6 +114,7 @@ type Workload struct {
 	PCTLen   int
 	Race     bool // also meaningful in the -race binary
 	Weight   int  // share of runs in a batch
+	Stall    int  // > 0: goroutines other than the harness body stall for simulated time at about every Stall-th scheduling point
 	Body     func(r *R)
 	// Post runs on the scheduler goroutine after the run ended (no SUT code may be called); it may
 	// inspect recorded state and call r.failPost.
@@ -240,7 +241,7 @@ func execute(t *testing.T, w *Workload, tier string, seed uint64, index int, o e
 		synctest.Test(t, func(t *testing.T) {
 			p := paramsOf(seed)
 			cfg := vsimrt.Config{Seed: seed, MaxG: w.MaxG, MaxSteps: w.MaxSteps, SpinLimit: w.Spin, Strategy: p.Strategy, Sticky: p.Sticky,
-				PCTDepth: p.PCTDepth, PCTLen: w.PCTLen, MapPerm: p.MapPerm, Replay: o.replay, Strict: o.strict, Trace: o.trace}
+				PCTDepth: p.PCTDepth, PCTLen: w.PCTLen, MapPerm: p.MapPerm, Replay: o.replay, Strict: o.strict, Trace: o.trace, StallMean: w.Stall}
 			s := vsimrt.New(cfg)
 			defer s.Close()
 			r.Sim = s
@@ -251,6 +252,9 @@ func execute(t *testing.T, w *Workload, tier string, seed uint64, index int, o e
 			reason = s.Run(w.Horizon)
 			res.Steps, res.Hash, res.Preempt, res.Ext, res.Created = s.Steps, s.Hash, s.Preempt, s.Ext, s.Created
 			res.SimNs = int64(s.SimTime())
+			if s.Stalls > 0 {
+				r.CountN("fault:goroutine-stall", s.Stalls)
+			}
 			res.Kinds = map[string]int{}
 			for i, n := range s.KindCount {
 				if n > 0 {
